@@ -302,3 +302,93 @@ Section Bundled.
         requester_receive cipher cs_decrypt cs dom w = Some r.
   Proof. destruct L. eapply exchange_response_fits; eauto. Qed.
 End Bundled.
+
+(* ---- concurrent requests ---- *)
+From Coq Require Import Permutation.
+
+Lemma read_message_id w m : read_message w = Ok m -> get_u16 w 0 = Some (m_id m).
+Proof.
+  unfold read_message. destruct (get_u16 w 0) as [id|]; [|discriminate].
+  destruct (get_u16 w 2) as [fl|]; [|discriminate]. destruct (get_u16 w 4) as [qd|]; [|discriminate].
+  destruct (get_u16 w 6) as [an|]; [|discriminate]. destruct (get_u16 w 8) as [ns|]; [|discriminate].
+  destruct (get_u16 w 10) as [ar|]; [|discriminate].
+  destruct (read_n read_question (N.to_nat qd) w 12) as [[qs p1]|e|]; try discriminate.
+  destruct (read_n read_rr (N.to_nat an) w p1) as [[ans p2]|e|]; try discriminate.
+  destruct (read_n read_rr (N.to_nat ns) w p2) as [[nss p3]|e|]; try discriminate.
+  destruct (read_n read_rr (N.to_nat ar) w p3) as [[ars p4]|e|]; try discriminate.
+  destruct (p4 <? blen w); [discriminate|]. intros [= <-]. reflexivity.
+Qed.
+
+Section ConcurrentLaws.
+  Variable b32enc : bytes -> bytes.
+  Variable b32dec : bytes -> option bytes.
+  Variable cipher : Type.
+  Variable noise_write : bytes -> bytes -> bytes -> option (bytes * cipher).
+  Variable noise_read : bytes -> bytes -> option (bytes * cipher).
+  Variable cs_encrypt : cipher -> bytes -> option bytes.
+  Variable cs_decrypt : cipher -> bytes -> option bytes.
+  Variable pub_of : bytes -> bytes.
+  Hypothesis L : exchange_laws b32enc b32dec cipher noise_write noise_read cs_encrypt cs_decrypt pub_of.
+
+  (* one requester's exchange: randomness, DNS ID, payload, the query datagram and the reply cipher it holds *)
+  Record xreq := { x_rnd : bytes; x_id : N; x_payload : bytes; x_qw : bytes; x_cs : cipher }.
+  Definition xreq_ok (k : bytes) (dom : name) (x : xreq) : Prop :=
+    requester_query b32enc cipher noise_write (x_rnd x) (pub_of k) dom (x_id x) (x_payload x) = Some (x_qw x, x_cs x).
+
+  Notation handle := (responder_handle b32dec cipher noise_read cs_encrypt).
+  Notation serve := (serve b32dec cipher noise_read cs_encrypt).
+
+  (* the arrival order does not matter: the served pairs are the same up to that order *)
+  Lemma serve_permutation k dom process a1 a2 : Permutation a1 a2 -> Permutation (serve k dom process a1) (serve k dom process a2).
+  Proof. apply Permutation_map. Qed.
+
+  (* any number of requesters, their queries arriving in any order, possibly among other datagrams:
+     every requester's query is served with the response computed from that query alone; the callback is given
+     that requester's payload; and the response - the one carrying its own DNS ID - decodes under its own cipher
+     to the callback's answer for its own payload *)
+  Lemma exchange_concurrent k dom process reqs arrived :
+    Forall (xreq_ok k dom) reqs ->
+    (forall x, In x reqs -> In (x_qw x) arrived) ->
+    Forall (fun x =>
+      In (x_qw x, snd (handle k dom process (x_qw x))) (serve k dom process arrived) /\
+      get_u16 (x_qw x) 0 = Some (x_id x) /\
+      fst (handle k dom process (x_qw x)) = Some (x_payload x) /\
+      forall r rw, process (x_payload x) = Some r -> snd (handle k dom process (x_qw x)) = Some rw ->
+        requester_receive cipher cs_decrypt (x_cs x) dom rw = Some r \/
+        requester_receive cipher cs_decrypt (x_cs x) dom rw = cs_decrypt (x_cs x) []) reqs.
+  Proof.
+    intros Hok Harr. apply Forall_forall. intros x Hx.
+    rewrite Forall_forall in Hok. specialize (Hok x Hx). unfold xreq_ok in Hok.
+    split; [|split; [|split]].
+    - unfold ModelExch.serve. apply in_map_iff. exists (x_qw x). split; [reflexivity|apply Harr; exact Hx].
+    - destruct L as [Lb Ln].
+      destruct (request_direction b32enc b32dec cipher noise_write noise_read cs_encrypt cs_decrypt pub_of Lb Ln _ _ _ _ _ _ _ Hok)
+        as (nm & hs & framed & cs' & _ & _ & _ & Hrd & _).
+      apply read_message_id in Hrd. exact Hrd.
+    - eapply exchange_request_b; eauto.
+    - intros r rw Hp Hs. eapply exchange_response_b; eauto.
+  Qed.
+
+  (* the response that reaches a requester carries that requester's DNS ID *)
+  Lemma exchange_response_id k dom process x r :
+    xreq_ok k dom x -> process (x_payload x) = Some r ->
+    forall rw, snd (handle k dom process (x_qw x)) = Some rw -> get_u16 rw 0 = Some (x_id x).
+  Proof.
+    intros Hok Hp rw. unfold xreq_ok in Hok. destruct L as [Lb Ln].
+    destruct (request_direction b32enc b32dec cipher noise_write noise_read cs_encrypt cs_decrypt pub_of Lb Ln _ _ _ _ _ _ _ Hok)
+      as (nm & hs & framed & cs' & _ & Hnm & Htrim & Hrd & Hrf & Hrem & Hnr & Hdec).
+    unfold ModelExch.responder_handle. rewrite Hrd, Hrf, Hrem, Hnr, Hp.
+    destruct (cs_encrypt cs' r) as [enc|]; [|discriminate].
+    destruct (add_response_format enc) as [fr|]; [|discriminate].
+    cbn [snd]. unfold datagram.
+    destruct (wire_message (answer_msg (ok_resp (x_id x) nm) fr)) as [w|e|] eqn:Hw; try discriminate.
+    destruct (max_udp_payload <? blen w).
+    - destruct (wire_message (answer_msg (ok_resp (x_id x) nm) [])) as [w'|e|] eqn:Hw'; try discriminate.
+      intros [= <-].
+      pose proof (dns_message_roundtrip _ _ (answer_names_ok (x_id x) nm [] Hnm) Hw') as R.
+      apply read_message_id in R. rewrite answer_msg_ok in R. exact R.
+    - intros [= <-].
+      pose proof (dns_message_roundtrip _ _ (answer_names_ok (x_id x) nm fr Hnm) Hw) as R.
+      apply read_message_id in R. rewrite answer_msg_ok in R. exact R.
+  Qed.
+End ConcurrentLaws.
